@@ -150,7 +150,7 @@ theorem C01_build_decode_codec (f32Str f64Str : Nat → String) (cast : Nat → 
       ∀ (i : Nat) (hi : i < rows.length),
         interpRow (codecExt f32Str f64Str cast) fields rows[i] =
           .ok (.struct (LFields.ofList (cols.map fun c => (c.1, c.2.getD i .null)))) :=
-  Props.C01.C01_build_decode _ fields rows arrs hschema hcov hsafe hraw h
+  Props.C01.C01_build_decode _ fields rows arrs hschema hcov hsafe (fun x hx => Build.noRaw_ssa x (hraw x hx)) (Or.inl hraw) h
 
 /-! ### non-vacuity: temporal strings through the codec models -/
 
